@@ -21,7 +21,8 @@ REQUIRED = ['reads_ok', 'dtype_checked', 'empty_results_checked', 'len_checked']
 EXHAUSTIVE = {'quick': False, 'thorough': False}
 
 KINDS = ['none', 'Linear', 'Polynomial', 'Table', 'Add', 'Subtract', 'RTD', 'Thermistor', 'Thermocouple0', 'Thermocouple1',
-         'Strain', 'AdvancedAPI']
+         'Strain', 'AdvancedAPI', 'Linear-identity', 'Linear-zero', 'Polynomial-identity', 'Polynomial-empty', 'Polynomial-constant',
+         'Table-identity', 'Linear-of-Linear', 'Add-of-Linear']
 
 
 def scale_for(kind):
@@ -29,6 +30,22 @@ def scale_for(kind):
         return None
     if kind == 'Linear':
         return [dict(kind='Linear', slope=2.0, intercept=1.0, src=None)]
+    if kind == 'Linear-identity':
+        return [dict(kind='Linear', slope=1.0, intercept=0.0, src=None)]
+    if kind == 'Linear-zero':
+        return [dict(kind='Linear', slope=0.0, intercept=0.0, src=SG.RAW)]
+    if kind == 'Polynomial-identity':
+        return [dict(kind='Polynomial', coeffs=[0.0, 1.0], src=SG.RAW)]
+    if kind == 'Polynomial-empty':
+        return [dict(kind='Polynomial', coeffs=[], src=SG.RAW)]
+    if kind == 'Polynomial-constant':
+        return [dict(kind='Polynomial', coeffs=[3.0], src=SG.RAW)]
+    if kind == 'Table-identity':
+        return [dict(kind='Table', scaled=[0.0, 10.0], pre=[0.0, 10.0], src=SG.RAW)]
+    if kind == 'Linear-of-Linear':
+        return [dict(kind='Linear', slope=1.0, intercept=0.0, src=SG.RAW), dict(kind='Linear', slope=1.0, intercept=0.0, src=0)]
+    if kind == 'Add-of-Linear':
+        return [dict(kind='Linear', slope=1.0, intercept=0.0, src=SG.RAW), dict(kind='Add', left=0, right=SG.RAW)]
     if kind == 'Polynomial':
         return [dict(kind='Polynomial', coeffs=[1.0, 0.5, 0.25], src=SG.RAW)]
     if kind == 'Table':
@@ -56,9 +73,8 @@ def gen_cases(tier, seed):
                 continue    # NI scaling is defined on real numeric raw data only (DESIGN.md C14)
             for e in '<>':
                 yield {'k': 'cell', 't': t, 'scale': kind, 'e': e, 's': seed}
-    if tier == 'thorough':
-        for i in range(20000):
-            yield {'k': 'graph', 's': seed * 1000003 + i}
+    for i in range(20000 if tier == 'thorough' else 1500):
+        yield {'k': 'graph', 's': seed * 1000003 + i}
 
 
 def small_values(p, t, n):
@@ -121,10 +137,10 @@ def run_case(case, ctx):
     segs, rng = build(case)
     blob, _, _ = M.encode_file(segs)
     for raw_ts in ((False, True) if (case['k'] == 'cell' and case['t'] == 'ts') else (False,)):
-        for mode in ('eager', 'lazy'):
+        for mode in ('eager', 'lazy', 'metadata'):
             cellbase = (case.get('t', 'graph'), case.get('scale', 'graph'), mode, raw_ts, case.get('e', '?'))
             try:
-                tf = (TdmsFile.read if mode == 'eager' else TdmsFile.open)(io.BytesIO(blob), raw_timestamps=raw_ts)
+                tf = {'eager': TdmsFile.read, 'lazy': TdmsFile.open, 'metadata': TdmsFile.read_metadata}[mode](io.BytesIO(blob), raw_timestamps=raw_ts)
             except Exception as ex:
                 ctx.violation('open-raises/%s' % util.exc_key(ex), {'cell': cellbase})
                 continue
@@ -141,8 +157,7 @@ def run_case(case, ctx):
                     ('[n:]', lambda: ch[n:], 0), ('[::-2]', lambda: ch[::-2], None), ('[2:2]', lambda: ch[2:2], 0),
                     ('[-1:0:-1]', lambda: ch[-1:0:-1], None),
                 ]
-                if mode == 'eager':
-                    ops.append(('.data', lambda: ch.data, n))
+                ops.append(('.data', lambda: ch.data, n))       # lazily opened: only legal for zero-length channels (else it raises)
                 for what, fn, want_len in ops:
                     try:
                         got = fn()
@@ -187,7 +202,7 @@ def run_case(case, ctx):
                 if ok:
                     ctx.distinct(cell)
                     ctx.cell('ok:%s:%s' % (cell[0], cell[1]))
-            if mode == 'lazy':
+            if mode != 'eager':
                 tf.close()
     ctx.sample({'case': case, 'segments': [s.describe() for s in segs][:1]}, limit=2)
 
